@@ -412,3 +412,103 @@ def remove_asset_from_association(self, asset, association):
             asset.associations = assocs
     if not found:
         raise LookupError('not part of the association')
+
+
+# ----------------------------------------------------------------------------------------------- T23
+# C05: "live asset ids and names are unique, an explicitly requested id (including 0 and negative ids) is
+# honoured ... An operation that raises leaves the observable state unchanged": the id is the requested one when
+# one is given (None is the only 'not given'), else the counter; a taken id raises before anything is reserved; an
+# unnamed asset is called Type:id, a taken name gets ':id' appended (or raises when duplicates are forbidden), and
+# that is repeated until the name is free; only then id, counter (never moved backwards, always past the id) and
+# name are reserved and the asset is listed.
+def add_asset(self, asset, asset_id=None, allow_duplicate_names=True):
+    asset.id = asset_id if asset_id is not None else self.next_id
+    if asset.id in self.asset_ids:
+        raise ValueError('id in use')
+    asset.associations = []
+    if not hasattr(asset, 'name'):
+        asset.name = asset.type + ':' + str(asset.id)
+    else:
+        if asset.name in self.asset_names:
+            if allow_duplicate_names:
+                asset.name = asset.name + ':' + str(asset.id)
+            else:
+                raise ValueError('duplicate name')
+    while asset.name in self.asset_names:
+        asset.name = asset.name + ':' + str(asset.id)
+    self.asset_ids.add(asset.id)
+    self.next_id = max(asset.id + 1, self.next_id)
+    self.asset_names.add(asset.name)
+    if not hasattr(asset, 'extras'):
+        asset.extras = {}
+    self.assets.append(asset)
+
+
+# ----------------------------------------------------------------------------------------------- T24
+# C05: attackers share the id counter with the assets: an explicit id (None = not given) is honoured, the counter
+# always ends past the id and never moves backwards; an attacker without a (non-empty) name is called Attacker:id.
+def add_attacker(self, attacker, attacker_id=None):
+    if attacker_id is not None:
+        attacker.id = attacker_id
+    else:
+        attacker.id = self.next_id
+    self.next_id = max(attacker.id + 1, self.next_id)
+    if not hasattr(attacker, 'name') or not attacker.name:
+        attacker.name = 'Attacker:' + str(attacker.id)
+    self.attackers.append(attacker)
+
+
+# ----------------------------------------------------------------------------------------------- T25
+# C05: "a removed asset ... leaves no trace in associations, attackers' entry points or the reserved ids and
+# names": an asset that is not in the model raises first; every association it lists is handled exactly once (a
+# reflexive association is listed once per field); every attacker drops its entry point tuple for the asset; the
+# asset, its id and its name are released.
+def remove_asset(self, asset):
+    if asset not in self.assets:
+        raise LookupError('not part of the model')
+    associations = []
+    for association in asset.associations:
+        if association not in associations:
+            associations.append(association)
+    for association in associations:
+        self.remove_asset_from_association(asset, association)
+    for attacker in self.attackers:
+        entry_point_tuple = next((ep for ep in attacker.entry_points if ep[0] == asset), None)
+        if entry_point_tuple:
+            attacker.entry_points.remove(entry_point_tuple)
+    self.assets.remove(asset)
+    self.asset_ids.remove(asset.id)
+    self.asset_names.remove(asset.name)
+
+
+# ----------------------------------------------------------------------------------------------- T26
+# C05/C06: two assets are already linked by an association type exactly when ONE association of that type holds
+# the first in its left field AND the second in its right field (compared by id).
+def association_exists_between_assets(self, association_type, left_asset, right_asset):
+    associations = self._type_to_association.get(association_type, [])
+    for association in associations:
+        left_field_name, right_field_name = self.get_association_field_names(association)
+        if left_asset.id in [asset.id for asset in getattr(association, left_field_name)] and \
+                right_asset.id in [asset.id for asset in getattr(association, right_field_name)]:
+            return True
+    return False
+
+
+# ----------------------------------------------------------------------------------------------- T27
+# C05: "the neighbours reported for (asset, field) are exactly the assets linked through that field (self-links
+# included)": for every association the asset lists, the members of the named field are reported when the asset
+# sits in the opposite field - tested for both directions independently (an asset can sit on both sides).
+def get_associated_assets_by_field_name(self, asset, field_name):
+    associated_assets = []
+    for association in asset.associations:
+        left_field_name, right_field_name = self.get_association_field_names(association)
+        if right_field_name == field_name and asset in getattr(association, left_field_name):
+            associated_assets.extend(getattr(association, right_field_name))
+        if left_field_name == field_name and asset in getattr(association, right_field_name):
+            associated_assets.extend(getattr(association, left_field_name))
+    return associated_assets
+
+
+# ----------------------------------------------------------------------------------------------- T28
+def remove_attacker(self, attacker):
+    self.attackers.remove(attacker)
